@@ -1,4 +1,10 @@
 (* Extraction of every executable Model and Spec entry point.  ExtrOcamlBasic only. *)
 From Coq Require Import Extraction ExtrOcamlBasic.
-From SA Require Import Base.Prelude Solr.MM Solr.MM_Spec.
-Extraction "samodel.ml" mm_f64 solr_mm.
+From SA Require Import Base.Prelude Solr.MM Solr.MM_Spec Kernels.Intersect Kernels.Linear Kernels.Spec.
+Extraction "samodel.ml"
+  mm_f64 solr_mm
+  intersect_drop intersect_keep adjacent intersect_with_adjacents lowbit
+  merge merge_drop sort_merge_counts unique binary_search galloping_search
+  popcount64 popcount_reduce_at key_sum_over popcount64_reduce payload_slice as_dense
+  intersect_drop_spec intersect_keep_spec adjacent_spec merge_spec merge_drop_spec unique_spec
+  search_spec popcount_reduce_at_spec key_sum_over_spec popcount64_reduce_spec as_dense_spec sort_merge_counts_spec mvals.
